@@ -19,6 +19,9 @@ CHECKS = {
     'C16': ('exploration', 'runtime monitoring: table-exactness, routing, status-query and EXPIRE-owner monitors after every real main_loop iteration',
             'Table invariants (no duplicate, no DELETED entry, nothing returns, successor exactly once) and routing (owner of the header SPI selected by the I flag; fresh responder per IKE_SA_INIT request; unknown SPI has no effect) are evaluated after every step of exhaustive <=1-duplicate and sampled <=3-duplicate schedules of rekey/delete exchanges, hub histories with several concurrent IKE_SAs and simultaneous initiations, a forged-header SPI x flag x exchange matrix, status queries and EXPIRE notices incl. a peer-chosen SPI collision.',
             'fake kernel/network; forged datagrams are unauthenticated (routing observed, not acceptance); SPI collision forced through the peer\'s os.urandom', '2/C16'),
+    'C17': ('fault_enumeration', 'runtime monitoring of the real main_loop: loop-exit-kind oracle + executed-line budget per iteration + honest-bystander service check, under hostile datagrams / kernel events and an OSError injected at every sendto / netlink call index',
+            'A hub daemon with an honest bystander peer is fed, one real main_loop iteration at a time, the C06 hostile corpus from configured and unconfigured addresses, protocol oddities, authentic-but-malformed protected messages built with an established peer\'s real keys, odd kernel messages, and OSError from sendto / the netlink socket at every call index of base histories. Every iteration must come back to select (not die), within a fixed executed-line budget, and the bystander must still complete a handshake and CHILD_SA rekey with mirror-image SADs afterwards.',
+            'one event per loop iteration; line budget constants fixed a priori (4000 + 20/byte + 40/declared DELETE SPI + 800/IKE_SA); fake kernel/network', '2/C17'),
 }
 
 
